@@ -9,7 +9,7 @@ for l in open(os.path.join(HERE, "properties.jsonl")):
 E2 = "pathsym (z3-backed dynamic symbolic execution of the real methods over a symbolic file-system/crash/fault/schedule environment)"
 E1 = "CrossHair 0.0.110 symbolic execution of the real leaf functions (z3)"
 STEP = "pathsym: one inductive step of the real API methods from an arbitrary state satisfying Inv (z3 variables); obligations discharged by z3 validity queries; counterexamples replayed natively on the real file system"
-BND = "Bounds: identifier/content/format universe listed in evidence.bounds (|P|=3 quick, 4 thorough; contents up to 3 model buffers; one never-stored cid); symfs POSIX model (validated by native replay of every counterexample); z3 5.1; Inv and the reference model are the checker's. Exit 2 = inconclusive."
+BND = "Bounds: identifier/content/format universe listed in evidence.bounds (|P|=3 quick, 4 thorough; contents up to 3 model buffers; one never-stored cid); symfs POSIX model (validated by native replay of every counterexample); z3 5.1; Inv and the reference model are the checker's. Further universes added by the seeded rounds (DESIGN.md 7.6): large contents / documents, non-ASCII, path-, digest- and template-shaped identifiers, a long cid, other store algorithms, two stores in one process. Environment Booleans (hard-link support, sub-trees on separate file systems, debug logging, UTF-8 default text encoding) are decided by the solver when the code asks. Overall exploration budget 20 min (quick) / 4 h (thorough): running out is exit 2. Exit 2 = inconclusive."
 CHECKS = {
  "C01": ("CrossHair symbolic execution of Stream/_write_to_tmp_file_and_get_hex_digests (symbolic bytes, offset, buffer size) + " + STEP,
          "E1: all paths of the real streaming/temp-file code for symbolic content (<=5/8 bytes), caller offset and buffer size are confirmed by CrossHair/z3. E2: store_object with each of the four data kinds (solver-chosen stream offset) under each of the five store algorithms from an arbitrary symbolic store state returns cid = hashlib digest and true size and retrieve_object returns the bytes; calls on other pids leave the binding and object untouched (frame discharged by z3), which covers interleaved histories by induction.",
@@ -39,10 +39,10 @@ CHECKS = {
          "From every Inv state, for each validation variant (absent, correct incl. upper-case and non-default algorithm, wrong checksum, wrong size): one-call and in-steps procedures give the same outcome, cid, size, default digests and equal post-states (z3) when valid; the same mismatch class, unchanged pid binding and undisturbed referenced objects when invalid.", BND, "2/C19"),
  "C07": ("pathsym with a symbolic schedule vector (sched_n, wake_k) over a cooperative scheduler running the real methods in real threads; oracle = all sequential orders of the real code",
          "Every pair (thorough: B=2 and 8 triples) of store_object/tag_object/delete_object/delete_if_invalid_object calls over 2 pids and 2 contents from four starting states: every feasible schedule within the preemption bound is executed; each call's result and the final abstract state must equal some sequential order (StoreObjectForPidAlreadyInProgress admitted only against a concurrent store of the same pid); three-thread spurious-wake scenarios for the cid, reference-pid and object-pid locks. Violations are replayed with real threads on the real file system under the recorded schedule. Four genuine races are listed as known findings (D6, D11, D12, D13).",
-         "Preemption bound 1 (quick) / 2 (thorough); scheduling points = lock operations, file-system operations and existence probes; scheduler-aware model of threading.Lock/Condition (notify wakes one arbitrary waiter).", "2/C07"),
+         "Preemption bound 1 (quick) / 2 (thorough), plus one pair per locked-identifier list at bound 2 in both tiers, a depth-1/width-1 family and a pair of 70 001-byte contents; scheduling points = lock acquire / release / wait (timed waits may time out), file-system operations, existence probes, reads, attribute writes of the store instance; scheduler-aware model of threading.Lock/Condition (notify wakes one arbitrary waiter).", "2/C07"),
  "C08": ("pathsym: symbolic schedule vector (deadlock decided per explored interleaving) + symbolic fault point; lock lists and follow-up calls",
          "All C07/C12 pair scenarios plus mixed object/metadata pairs: no execution deadlocks or exceeds the step budget, all four locked-identifier lists are empty at quiescence and follow-up calls on the identifiers complete; the same after every single call that failed with an injected I/O error (once / persistent).",
-         "Same bounds as C07/C12/C13.", "2/C08"),
+         "Same bounds as C07/C12/C13; plus pairs through two store instances of one process, USE_MULTIPROCESSING set while a call runs, unencodable identifiers, a regular file where a directory is wanted; a call that exceeds the operation / step budget counts as not returning.", "2/C08"),
  "C09": ("pathsym with a symbolic crash point (crash_at) as observer over the frozen file-system model; trace check for in-place writes",
          "For every feasible (state, call, operation index): at the frozen state before the operation every touched object address holds content whose digest is its name, every metadata document is a complete supplied version, every pid reference a complete cid; only rename/remove ever target a permanent address.",
          "Granularity: one buffered flush = one operation; POSIX rename/unlink atomic; contents up to 3 model buffers.", "2/C09"),
